@@ -610,3 +610,92 @@ func vh_processlogs_faults() {
 	vAssert(r.lastApplied == target2 || r.lastApplied == mid, "C02.plfault.applied-is-a-requested-index")
 	vReach("plfault.end")
 }
+
+// vh_crash_ae_config: appendEntries that truncates / replaces / appends a CONFIGURATION entry x crash point
+// x real NewRaft: the recovered latest configuration is the last configuration entry of the durable log
+// above the snapshot, else the snapshot's (C10 "latest cluster configuration it had durably recorded", C07).
+func vh_crash_ae_config() {
+	w := 3
+	r, env := vNewRaft("f", vRaftOpts{n: 1, w: w})
+	s := env.logs
+	base := vBase()
+	vAssume(base >= 1)
+	t1, t2 := vU64("f.t1"), vU64("f.t2")
+	vAssume(t1 <= t2 && t2 <= r.currentTerm && r.currentTerm < 1<<62)
+	cfgCommitted := vConfig("cfgCommitted", 1, false)
+	cfgLatest := vConfig("cfgLatest", 1, false)
+	s.low, s.high = base+1, base+2
+	s.present.Set(base+1, 1)
+	s.present.Set(base+2, 1)
+	s.present.Set(base+3, 0)
+	s.term.Set(base+1, t1)
+	s.term.Set(base+2, t2)
+	s.typ.Set(base+1, uint64(LogCommand))
+	s.typ.Set(base+2, uint64(LogConfiguration))
+	s.data.Set(base+2, vBlobToCell(vEncodeConfiguration(cfgLatest)))
+	r.lastSnapshotIndex, r.lastSnapshotTerm = base, vU64("f.snapTerm")
+	vAssume(r.lastSnapshotTerm <= t1)
+	r.lastLogIndex, r.lastLogTerm = base+2, t2
+	r.commitIndex, r.lastApplied = base+1, base+1
+	r.state = Follower
+	r.configurations.latest, r.configurations.latestIndex = cfgLatest, base+2
+	r.configurations.committed, r.configurations.committedIndex = cfgCommitted, base
+	vAssume(vInvBasic(r, env))
+	vAssume(cfgCommitted.Servers[0].ID != cfgLatest.Servers[0].ID)
+	vDurableImage(r, env) // snapshot at base carrying the committed configuration
+	lt2 := vU64("L.t2")
+	lcfg := vConfig("cfgNew", 1, false)
+	vAssume(lcfg.Servers[0].ID != cfgLatest.Servers[0].ID && lcfg.Servers[0].ID != cfgCommitted.Servers[0].ID)
+	isCfg := vChoose("L.entryIsConfig", 0, 1) == 1
+	e := &Log{Index: base + 2, Term: lt2, Type: LogCommand, Data: vBlob("L.data")}
+	if isCfg {
+		e.Type = LogConfiguration
+		e.Data = vEncodeConfiguration(lcfg)
+	}
+	a := &AppendEntriesRequest{
+		RPCHeader: RPCHeader{ProtocolVersion: ProtocolVersionMax, ID: vBlob("a.id"), Addr: vBlob("a.addr")},
+		Term:      r.currentTerm, PrevLogEntry: base + 1, PrevLogTerm: t1,
+		Entries: []*Log{e}, LeaderCommitIndex: vU64("a.leaderCommit"),
+	}
+	vAssume(len(a.Addr) > 0 && lt2 >= t1 && lt2 <= a.Term && lt2 != t2) // a conflicting entry: the old configuration entry is cut
+	vAssume(a.LeaderCommitIndex <= base+2)
+	pre := vSnap(r, env)
+	ctl := vArmCrash(env, 4)
+	rpc, _ := vMakeRPC(a)
+	stopped := vCatch(func() { r.appendEntries(rpc, a) })
+	vAssert(stopped == ctl.crashed, "C10.crash.aeconfig.no-panic-of-its-own")
+	vAssert(!ctl.over, "C10.crash.aeconfig.crash-point-bound")
+	deleted, stored := false, false
+	for _, c := range s.calls {
+		if c.op == opDeleteRange && c.ok {
+			deleted = true
+		}
+		if c.op == opStoreLogs && c.ok {
+			stored = true
+		}
+	}
+	r2, _, err, p2 := vRecover(r, env, false)
+	vAssert(!p2 && err == nil && r2 != nil, "C10.crash.aeconfig.recovery-ok")
+	if p2 || err != nil || r2 == nil {
+		return
+	}
+	c := &r2.configurations
+	switch {
+	case !deleted:
+		vCover("crash.aeconfig.before-truncation")
+		vAssert(c.latestIndex == base+2 && vSameServers(c.latest.Servers, cfgLatest.Servers), "C10.crash.aeconfig.untouched-log-keeps-its-configuration")
+		vAssert(c.latestIndex == base+2 && vSameServers(c.latest.Servers, cfgLatest.Servers), "C07.crash.aeconfig.untouched-log-keeps-its-configuration")
+	case deleted && !stored, stored && !isCfg:
+		vCover("crash.aeconfig.truncated")
+		// the cut configuration entry is gone for good: the snapshot's (committed) configuration is in force again
+		vAssert(c.latestIndex == pre.committedIndex && vSameServers(c.latest.Servers, cfgCommitted.Servers), "C10.crash.aeconfig.truncated-configuration-does-not-come-back")
+		vAssert(c.latestIndex == pre.committedIndex && vSameServers(c.latest.Servers, cfgCommitted.Servers), "C07.crash.aeconfig.truncated-configuration-does-not-come-back")
+	default:
+		vCover("crash.aeconfig.new-config-stored")
+		vAssert(c.latestIndex == base+2 && vSameServers(c.latest.Servers, lcfg.Servers), "C10.crash.aeconfig.stored-configuration-is-recovered")
+		vAssert(c.latestIndex == base+2 && vSameServers(c.latest.Servers, lcfg.Servers), "C07.crash.aeconfig.stored-configuration-is-recovered")
+	}
+	vAssert(c.committedIndex <= c.latestIndex, "C07.crash.aeconfig.index-order")
+	vAssert(r2.currentTerm >= pre.term, "C06.crash.aeconfig.term-never-regresses")
+	vReach("crash.aeconfig.end")
+}
